@@ -10,7 +10,7 @@ import (
 )
 
 func (c *Case) pipeOpts() PipeOpts {
-	return PipeOpts{SimOpts: SimOpts{Policy: c.Policy, Record: c.Record, MaxSteps: 3_000_000}, Cap: c.Cap, LateFeed: c.Late, Neighbour: c.Nbr}
+	return PipeOpts{SimOpts: SimOpts{Policy: c.Policy, Record: c.Record, MaxSteps: 3_000_000}, Cap: c.Cap, LateFeed: c.Late, EarlyFeed: c.Early, Neighbour: c.Nbr}
 }
 
 // runInd executes an indicator case.
@@ -138,6 +138,9 @@ func genStratCase(rng *rand.Rand, tier string) *Case {
 	n := genLen(rng, s, maxLong)
 	if c.Scale <= 1 && len(c.Cfg) == 0 && n > 260 {
 		n = 260
+	}
+	if len(c.Subs) == 0 && rng.Intn(250) == 0 {
+		n = 1030 + rng.Intn(600) // four to six years of daily bars through one base strategy
 	}
 	c.Lens = []int{n}
 	c.Shape = rng.Intn(NumShapes)
